@@ -48,6 +48,7 @@ type Failure struct {
 	Tags    map[string]string `json:"tags"`
 	Stack   []string          `json:"stack"`
 	Model   map[string]any    `json:"model"`
+	Image   any               `json:"image,omitempty"`
 	Trace   []int8            `json:"-"`
 }
 
@@ -426,9 +427,24 @@ func (ex *Exec) globalCell(g *ssa.Global) *Cell {
 	ex.globals[g] = c
 	// package-level sentinel errors created by errors.New in var blocks
 	if g.Pkg != nil && isErrorType(c.T) {
-		c.V = &IfaceVal{Typ: ex.w.errStringPtr, Val: &Ptr{C: ex.sentinel(g.Pkg.Pkg.Path() + "." + g.Name())}}
+		name := g.Pkg.Pkg.Path() + "." + g.Name()
+		if a, ok := sentinelAlias[name]; ok {
+			name = a
+		}
+		c.V = &IfaceVal{Typ: ex.w.errStringPtr, Val: &Ptr{C: ex.sentinel(name)}}
 	}
 	return c
+}
+
+// sentinels that the standard library defines as aliases of one another
+var sentinelAlias = map[string]string{
+	"os.ErrNotExist":        "io/fs.ErrNotExist",
+	"os.ErrExist":           "io/fs.ErrExist",
+	"os.ErrClosed":          "io/fs.ErrClosed",
+	"os.ErrPermission":      "io/fs.ErrPermission",
+	"os.ErrInvalid":         "io/fs.ErrInvalid",
+	"path/filepath.SkipDir": "io/fs.SkipDir",
+	"path/filepath.SkipAll": "io/fs.SkipAll",
 }
 
 func isErrorType(t types.Type) bool {
@@ -747,7 +763,12 @@ func (ex *Exec) step(fr *frame, ins ssa.Instruction) {
 		elem := i.Type().Underlying().(*types.Slice).Elem()
 		if !ln.IsConst() && isByte(elem) {
 			// byte slice of symbolic length: opaque blob buffer
-			fr.env[i] = ex.makeBlobBuffer(ln)
+			_, lsigned := typeSigned(i.Len.Type())
+			l64 := mkResize(ln, 64, lsigned)
+			if lsigned && !ex.branch(mkCmp("bvsle", mkConst(64, 0), l64)) {
+				ex.end("PANIC", "makeslice-len-negative@"+ex.whereRepo())
+			}
+			fr.env[i] = ex.makeBlobBuffer(l64)
 			break
 		}
 		max := ex.bounds["slice"]
